@@ -17,7 +17,7 @@
    Non-vacuity examples for every theorem: C03/Examples.v. *)
 From Coq Require Import List ZArith Bool.
 From TskVerif Require Import Base.Common C03.Model C03.Spec C03.AlleleProofs C03.PaintProofs
-     C03.DecodeProofs C03.HistoryProofs C03.RuleProofs C03.TotalProofs C03.PyViews C03.ViewsProofs.
+     C03.DecodeProofs C03.HistoryProofs C03.RuleProofs C03.TotalProofs C03.DfsTotalProofs C03.PyViews C03.ViewsProofs.
 Import ListNotations.
 Open Scope Z_scope.
 
@@ -111,20 +111,16 @@ Theorem decode_history_independent : forall fuel t v st s,
   decode_st fuel t v st s = decode fuel t v s.
 Proof. exact decode_st_history_independent. Qed.
 
-(* The "decode = Ok" premises above are not vacuous: under the same hypotheses the model never
-   indexes outside an array nor runs out of fuel; the only error is TSK_ERR_ALLELE_NOT_FOUND, and
-   only with a user allele list.
-   PARTIAL: for the traversal path (samples given) termination of the explicit-stack loop of
-   tsk_variant_traverse within the fuel and the N-entry stack is the hypothesis [traversal_ok]
-   (it is vacuous, i.e. nothing is assumed, for the sample-list path).  Missing for the full
-   statement: a proof that the pre-order walk of a forest with N nodes pops at most N nodes.
-   Full statement:  tree_rep .. -> muts_in_range .. -> (forall u, depth_le par h u) ->
-                    (exists r, decode .. = Ok r) \/ decode .. = Err ERR_ALLELE_NOT_FOUND. *)
-Theorem decode_total_partial : forall par fuel t v N s,
-  tree_rep par fuel t v N -> muts_in_range N s -> traversal_ok fuel t v s ->
+(* The "decode = Ok" premises above are not vacuous: on a forest of bounded height whose
+   arrays satisfy tree_rep the model never indexes outside an array, never overflows the
+   N-entry traversal stack and never runs out of fuel (fuel >= N); the only error is
+   TSK_ERR_ALLELE_NOT_FOUND, and only with a user allele list.  Example: ex_total. *)
+Theorem decode_total : forall par fuel t v N h s,
+  tree_rep par fuel t v N -> (forall u, depth_le par h u) ->
+  v_num_nodes v = N -> N <= Z.of_nat fuel -> muts_in_range N s ->
   (exists r, decode fuel t v s = Ok r) \/
   (decode fuel t v s = Err ERR_ALLELE_NOT_FOUND /\ exists ua, v_user_alleles v = Some ua).
-Proof. exact decode_total_partial_l. Qed.
+Proof. exact decode_total_l. Qed.
 
 (* (B) Python assembly (python/tskit/trees.py), list-level model C03/PyViews.v. *)
 
